@@ -49,5 +49,16 @@ def isDecimal (s : List Char) : Bool := !s.isEmpty && s.all fun c => (digitVal? 
 def decimalVal (s : List Char) : Nat :=
   s.foldl (fun acc c => acc * 10 + (digitVal? c).getD 0) 0
 
+/-- `str.split(sep)` for a one-character separator, on code points (structural, so that the
+    kernel can evaluate it on literals) -/
+def splitOnChar (sep : Char) : List Char → List (List Char)
+  | [] => [[]]
+  | c :: cs =>
+    if c == sep then [] :: splitOnChar sep cs
+    else
+      match splitOnChar sep cs with
+      | [] => [[c]]
+      | x :: xs => (c :: x) :: xs
+
 end Py
 end PowHsm
